@@ -80,6 +80,9 @@ struct Case<'a> {
     position: &'static str,
     missing: bool,
     binary: bool,
+    /// walk variant: "plain", "depth" (-depth: the slash-less starting point is visited last) or
+    /// "tworoots" (a second, slash-less starting point `u` after `t`)
+    walk: &'static str,
 }
 
 fn subst(t: &str, path: &[u8]) -> Vec<u8> {
@@ -109,10 +112,24 @@ fn check_case(ctx: &mut Ctx, ns: &[Vec<u8>], c: &Case) -> Option<(String, String
     let mut exec: Vec<String> = vec![prim.into(), cmd, logs];
     exec.extend(c.template.iter().map(|s| s.to_string()));
     exec.push(";".into());
-    let mut argv: Vec<String> = vec!["t".into(), "-sorted".into()];
+    let mut argv: Vec<String> = vec!["t".into()];
+    if c.walk == "tworoots" {
+        let _ = std::fs::create_dir(sbx.join("u"));
+        argv.push("u".into());
+    }
+    argv.push("-sorted".into());
+    if c.walk == "depth" {
+        argv.push("-depth".into());
+    }
     // entries in visit order: t, then names sorted
     let mut entries: Vec<Vec<u8>> = vec![b"t".to_vec()];
     entries.extend(ns.iter().map(|n| [b"t/".as_slice(), n].concat()));
+    if c.walk == "depth" {
+        entries.rotate_left(1); // children first, the starting point last
+    }
+    if c.walk == "tworoots" {
+        entries.push(b"u".to_vec());
+    }
     let special = &ns[ns.len() / 2];
     let reached: Vec<&Vec<u8>> = match c.position {
         "after-false" => vec![],
@@ -179,7 +196,7 @@ fn check_case(ctx: &mut Ctx, ns: &[Vec<u8>], c: &Case) -> Option<(String, String
     let cwd_sbx = sbx.as_os_str().as_bytes().to_vec();
     for (k, (rec, path)) in recs.iter().zip(expected_runs.iter()).enumerate() {
         let (shown, want_cwd): (Vec<u8>, Vec<u8>) = if c.execdir {
-            let base: &[u8] = if path.len() > 2 { &path[2..] } else { path };
+            let base: &[u8] = if path.starts_with(b"t/") { &path[2..] } else { path };
             let cwd = if path.contains(&b'/') { [cwd_sbx.clone(), b"/t".to_vec()].concat() } else { cwd_sbx.clone() };
             ([b"./".as_slice(), base].concat(), cwd)
         } else {
@@ -235,7 +252,7 @@ fn check_case(ctx: &mut Ctx, ns: &[Vec<u8>], c: &Case) -> Option<(String, String
 fn report(ctx: &mut Ctx, ns: &[Vec<u8>], c: &Case, maxlen: usize) {
     if let Some((sig, detail)) = check_case(ctx, ns, c) {
         match check_case(ctx, ns, c) {
-            Some((s2, _)) if s2 == sig => ctx.rep.violation(&sig, detail, json!({"prop":"C09","execdir":c.execdir,"template":c.template,"script":c.script,"position":c.position,"missing":c.missing,"binary":c.binary,"maxlen":maxlen})),
+            Some((s2, _)) if s2 == sig => ctx.rep.violation(&sig, detail, json!({"prop":"C09","execdir":c.execdir,"template":c.template,"script":c.script,"position":c.position,"missing":c.missing,"binary":c.binary,"maxlen":maxlen,"walk":c.walk})),
             _ => ctx.rep.machinery(format!("nondeterministic verdict: {sig}")),
         }
     }
@@ -259,7 +276,7 @@ fn run(ctx: &mut Ctx) {
                 continue;
             }
             ctx.progress(job);
-            let c = Case { execdir, template: t, script: vec!["0"], position: "before-printf", missing: false, binary: false };
+            let c = Case { execdir, template: t, script: vec!["0"], position: "before-printf", missing: false, binary: false, walk: "plain" };
             report(ctx, &ns, &c, maxlen);
             if job % 101 == 1 {
                 ctx.rep.sample(json!({"primary": if execdir {"-execdir"} else {"-exec"}, "template": t, "names": ns.iter().take(10).map(|n| lossy(n)).collect::<Vec<_>>()}));
@@ -284,13 +301,28 @@ fn run(ctx: &mut Ctx) {
                         let missing = o == "missing";
                         // outcomes alternate per file so that truth differs between neighbours
                         let script: Vec<&'static str> = if missing { vec!["0"] } else { vec![o, "0", o, o, "0"] };
-                        let c = Case { execdir, template: t, script, position: pos, missing, binary };
+                        let c = Case { execdir, template: t, script, position: pos, missing, binary, walk: "plain" };
                         report(ctx, &ns, &c, maxlen);
                         if binary {
                             ctx.rep.traces_validated += 1;
                         }
                     }
                 }
+            }
+        }
+    }
+    // slice 2b: the slash-less starting point visited after other entries (-depth, or a second
+    // starting point): state must not leak from one run to the next (cwd of -execdir)
+    let tsmall: [Vec<&'static str>; 4] = [vec![], vec!["x"], vec!["{}"], vec!["x", "a{}b"]];
+    for t in &tsmall {
+        for walk in ["depth", "tworoots"] {
+            for execdir in [false, true] {
+                job += 1;
+                if !ctx.mine(job) {
+                    continue;
+                }
+                let c = Case { execdir, template: t, script: vec!["0", "1"], position: "before-printf", missing: false, binary: false, walk };
+                report(ctx, &ns, &c, maxlen);
             }
         }
     }
@@ -315,7 +347,7 @@ fn nonutf8_slice(ctx: &mut Ctx, job: &mut u64) {
                 }
                 built = true;
             }
-            let c = Case { execdir, template: t, script: vec!["0"], position: "alone", missing: false, binary: false };
+            let c = Case { execdir, template: t, script: vec!["0"], position: "alone", missing: false, binary: false, walk: "plain" };
             report(ctx, &ns, &c, 0);
             ctx.rep.count("runs_over_names_that_are_not_valid_utf8", 1);
         }
@@ -329,7 +361,7 @@ fn replay(case: &Value, ctx: &mut Ctx) -> Option<String> {
     let template: Vec<&'static str> = case["template"].as_array()?.iter().filter_map(|v| PIECES.iter().chain(["a{}b{}"].iter()).find(|p| Some(**p) == v.as_str()).copied()).collect();
     let script: Vec<&'static str> = case["script"].as_array()?.iter().filter_map(|v| OUTCOMES.iter().find(|p| Some(**p) == v.as_str()).copied()).collect();
     let position = POSITIONS.iter().find(|p| Some(**p) == case["position"].as_str())?;
-    let c = Case { execdir: case["execdir"].as_bool()?, template: &template, script, position, missing: case["missing"].as_bool()?, binary: case["binary"].as_bool().unwrap_or(false) };
+    let c = Case { execdir: case["execdir"].as_bool()?, template: &template, script, position, missing: case["missing"].as_bool()?, binary: case["binary"].as_bool().unwrap_or(false), walk: ["plain", "depth", "tworoots"].into_iter().find(|w| Some(*w) == case["walk"].as_str()).unwrap_or("plain") };
     match check_case(ctx, &ns, &c) {
         Some((sig, detail)) => {
             ctx.rep.violation(&sig, detail, case.clone());
